@@ -481,3 +481,92 @@ class GenLoopy(GenF):
             out.append(self.ev())
             out.append(("fork", "XOR", [[self.ev(), ("loop", [self.ev(), self.ev()])], [self.ev(), ("loop", [self.ev()])]]))
         return out
+
+
+# ----------------------------------------------------------------------------- corpus dialect (end-to-end-pumls)
+
+def parse_corpus(text):
+    """Parser for the dialect of the repository's end-to-end corpus: colours, if/else/endif and
+    switch/case as XOR, fork as AND, split as OR, repeat/repeat while, break, kill/detach, comments.
+    Returns the AST, or raises ValueError (e.g. on branch-count annotations)."""
+    import re as _re
+    lines = []
+    for raw in text.replace("@enduml@startuml", "@enduml\n@startuml").split("\n"):
+        l = raw.strip()
+        if not l or l.startswith("'") or l.startswith("@") or l.startswith("partition") or l.startswith("group") \
+                or l in ("end group", "}"):
+            continue
+        lines.append(l)
+    pos = 0
+
+    def seq(stop):
+        nonlocal pos
+        out = []
+        while pos < len(lines) and not any(lines[pos].startswith(s) for s in stop):
+            l = lines[pos]
+            m = _re.match(r"^(#\w+)?:(.*);$", l)
+            if m:
+                name = m.group(2).strip()
+                if "BCNT" in name or "," in name:
+                    raise ValueError("branch count")
+                out.append(("ev", name))
+                pos += 1
+            elif l == "break":
+                out.append(("break",))
+                pos += 1
+            elif l in ("kill", "detach"):
+                out.append(("detach",))
+                pos += 1
+            elif l.startswith("repeat") and not l.startswith("repeat while"):
+                pos += 1
+                b = seq(("repeat while",))
+                pos += 1
+                out.append(("loop", b))
+            elif l.startswith("if "):
+                pos += 1
+                brs = [seq(("else", "elseif", "endif"))]
+                while lines[pos].startswith("else"):
+                    pos += 1
+                    brs.append(seq(("else", "elseif", "endif")))
+                pos += 1
+                out.append(("fork", "XOR", brs))
+            elif l.startswith("switch"):
+                pos += 1
+                brs = []
+                while lines[pos].startswith("case"):
+                    pos += 1
+                    brs.append(seq(("case", "endswitch")))
+                pos += 1
+                out.append(("fork", "XOR", brs))
+            elif l == "fork" or l == "split":
+                kind, sep, end = ("AND", "fork again", "end fork") if l == "fork" else ("OR", "split again", "end split")
+                pos += 1
+                brs = [seq((sep, end))]
+                while lines[pos].startswith(sep):
+                    pos += 1
+                    brs.append(seq((sep, end)))
+                pos += 1
+                out.append(("fork", kind, brs))
+            else:
+                raise ValueError(f"corpus line not understood: {l!r}")
+        return out
+    d = seq(())
+    if pos != len(lines):
+        raise ValueError("trailing lines")
+    return d
+
+
+def load_corpus(repo):
+    """the 63 corpus definitions: no BCNT in the file and none in a sibling *_equiv.puml"""
+    from pathlib import Path
+    root = Path(repo) / "end-to-end-pumls"
+    out = []
+    for f in sorted(root.rglob("*.puml")):
+        txt = f.read_text()
+        if "BCNT" in txt:
+            continue
+        sib = f.with_name(f.stem + "_equiv.puml")
+        if sib.exists() and "BCNT" in sib.read_text():
+            continue
+        out.append((str(f.relative_to(root)), txt))
+    return out
